@@ -28,12 +28,31 @@ demo() { # returns 0 when the demonstration passes
   return 2
 }
 demo; BASE=$?
+ONBASE=""
 if ! git apply "$SEED/patch.diff" 2>/dev/null; then
-  # the patch was made against an older /repo commit (recorded in $SEED/base): test it there
-  BASECOMMIT=$(cat "$SEED/base" 2>/dev/null)
-  [ -n "$BASECOMMIT" ] || { echo "SEED $SEED: patch does not apply"; exit 2; }
-  git checkout -q --detach "$BASECOMMIT" && git apply "$SEED/patch.diff" || { echo "SEED $SEED: patch does not apply to its base $BASECOMMIT either"; exit 2; }
-  echo "  (patch no longer applies to /repo HEAD; tested on its base commit $BASECOMMIT)"
+  # later repairs touched the same lines: try a three-way merge onto HEAD first
+  if git apply --3way "$SEED/patch.diff" >/dev/null 2>&1 && ! grep -q '^<<<<<<<' *.go cmd/gmars/main.go 2>/dev/null && go build . ./cmd/gmars >/dev/null 2>&1; then
+    git reset -q
+    echo "  (patch merged three-way onto /repo HEAD)"
+  elif git reset -q --hard && git clean -fdq && { git apply --3way "$SEED/patch.diff" >/dev/null 2>&1; python3 "$VERIF_HOME/tools/resolve_theirs.py" *.go cmd/gmars/main.go; gofmt -l . >/dev/null 2>&1; go build . ./cmd/gmars >/dev/null 2>&1; }; then
+    git reset -q
+    echo "  (patch merged three-way onto /repo HEAD; conflicting hunks taken from the seeded change)"
+  else
+    git reset -q --hard; git clean -fdq
+    # the patch was made against an older /repo commit (recorded in $SEED/base): test it there.  That tree still has
+    # the defects repaired since, which the checks report too: the signatures of the UNPATCHED base are printed as a
+    # baseline and only signatures beyond them count for the seeded change
+    BASECOMMIT=$(cat "$SEED/base" 2>/dev/null)
+    [ -n "$BASECOMMIT" ] || { echo "SEED $SEED: patch does not apply"; exit 2; }
+    git checkout -q --detach "$BASECOMMIT" || { echo "SEED $SEED: base $BASECOMMIT missing"; exit 2; }
+    ONBASE=$BASECOMMIT
+    for c in $CHECKS; do
+      out=$(cd "$VERIF_HOME" && VERIF_REPO="$WT" ./check.sh $c quick 2>&1)
+      echo "  baseline $c on $BASECOMMIT: $(echo "$out" | grep "sig=" | sed 's/^ *//' | sort -u | tr '\n' ' ')"
+    done
+    git apply "$SEED/patch.diff" || { echo "SEED $SEED: patch does not apply to its base $BASECOMMIT either"; exit 2; }
+    echo "  (patch no longer applies to /repo HEAD; tested on its base commit $BASECOMMIT)"
+  fi
 fi
 go build . ./cmd/gmars >/dev/null 2>&1 || { echo "SEED $SEED: does not compile"; exit 2; }
 go test -vet=off -count=1 . >/tmp/seedtest-suite.$$ 2>&1; SUITE=$?
@@ -45,5 +64,6 @@ cd "$VERIF_HOME"
 for c in $CHECKS; do
   out=$(VERIF_REPO="$WT" ./check.sh $c quick 2>&1); rc=$?
   sig=$(echo "$out" | grep -m3 "sig=" | tr '\n' ' ')
+  [ -n "$ONBASE" ] && sig=$(echo "$out" | grep "sig=" | sed 's/^ *//' | sort -u | tr '\n' ' ')
   echo "  check $c exit=$rc $(echo "$out" | grep -c '^VIOLATION') violation line(s) $sig"
 done
